@@ -32,9 +32,11 @@ pub fn consolidate_shards_in_directory(
     let mut finished_shards = Vec::<Arc<MDBShardFile>>::with_capacity(shards.len());
     let mut finished_shard_hashes = HashSet::<MerkleHash>::with_capacity(shards.len());
 
-    let mut cur_data = Vec::<u8>::with_capacity(target_max_size as usize);
-    let mut alt_data = Vec::<u8>::with_capacity(target_max_size as usize);
-    let mut out_data = Vec::<u8>::with_capacity(target_max_size as usize);
+    // The buffers grow as needed; the target size is a caller supplied limit (possibly "no limit"),
+    // not the amount of data present, so it must not be allocated up front.
+    let mut cur_data = Vec::<u8>::new();
+    let mut alt_data = Vec::<u8>::new();
+    let mut out_data = Vec::<u8>::new();
 
     let mut cur_idx = 0;
 
